@@ -220,3 +220,22 @@ Example seed8_pinned_tree_passes :
   let c := mkCase None None true seed8_toks [] [] (Some seed8_api) OOk OOk (print out) [] (Some out) true true true true false [] in
   agrees c = true /\ prop_ok c = true.
 Proof. vm_compute. split; reflexivity. Qed.
+
+(* ---- the text leg of [agrees] (Text.v): a formatter that pads its columns with two blanks writes the
+   right tokens on the right lines, parses back to the same description and is idempotent -- the
+   property holds of it -- but its text is not the text of the modelled Format methods / tabwriter:
+   the correspondence is broken, which the check reports as such *)
+Definition kv_api : api := [ SInfo [("a", Lit false """x"""); ("long", Lit false """y""")] ].
+Definition kv_toks : list token :=
+  [ tI "info"; tP KLParen "("; tIn "a"; tP KColon ":"; tP KStr """x"""; tIn "long"; tP KColon ":"; tP KStr """y"""; tPn KRParen ")" ].
+Definition text_case (f : string) : case :=
+  mkCase None (Some f) true kv_toks [] [] (Some kv_api) OOk OOk kv_toks [] (Some kv_api) true true true true false [].
+Definition nl1 : string := String "010"%char "".
+Definition tab1 : string := String "009"%char "".
+Definition kv_text (pad : string) : string :=
+  "info (" ++ nl1 ++ tab1 ++ "a:   " ++ pad ++ """x""" ++ nl1 ++ tab1 ++ "long:" ++ pad ++ """y""" ++ nl1 ++ ")" ++ nl1 ++ nl1.
+Theorem text_check_refuted :
+  ptext kv_api = kv_text " " /\
+  agrees (text_case (kv_text " ")) = true /\ prop_ok (text_case (kv_text " ")) = true /\
+  agrees (text_case (kv_text "  ")) = false /\ prop_ok (text_case (kv_text "  ")) = true.
+Proof. vm_compute. repeat split; reflexivity. Qed.
